@@ -23,6 +23,7 @@ def check(run, tier):
     traces += E.random_histories(run, n, m, common.SEED, genkw={
         "users": ("alice", "bob"), "versions": G.VERSIONS + G.BADVERSIONS,
         "weights": {"Query": 3, "DiscoverVersions": 3, "GetAttributes": 3, "GetAttributeList": 3, "Attr": 2}})
+    traces += over_connections(run, quick)
     E.judge(run, traces, only=ONLY, name="c16")
     E.summarise(run, traces)
     listed_versions_accepted(run)
@@ -33,6 +34,56 @@ def check(run, tier):
                 for k, it in enumerate(s["req"]["items"]):
                     r = s["res"]["items"][k] if k < len(s["res"]["items"]) else {"status": s["res"]["kind"], "reason": s["res"]["reason"]}
                     run.case(("cell", it["op"], s["req"]["ver"], r["status"], r["reason"]))
+
+
+def _conn_history(args):
+    """Requests over persistent connections (real KmipSession per client): what comes back is what the client receives, so
+    the version stated by the answer to a request the server refuses AS A WHOLE (stale or future time stamp, asynchronous
+    indicator, Undo, a batch without item identifiers, an unsupported version) is the session's doing."""
+    from .. import engtrace as T
+    tid, seed, nreq = args
+    common.scratch()
+    D.CLOCK.now = 3500000 + (seed % 1000) * 1000
+    drv = D.SessionDriver(intern=E.new_interner())
+    try:
+        rec = T.Recorder(drv, tid)
+        # (supported versions only: over the wire an unknown version already fails in the decoder, which the session answers
+        # as an undecodable request - C12 / C02 own that path)
+        gen = G.Gen(seed, users=("alice", "bob"), versions=G.VERSIONS,
+                    weights={"Query": 3, "DiscoverVersions": 3, "GetAttributes": 2, "Create": 2, "Get": 2, "Locate": 1})
+        for i in range(nreq):
+            D.CLOCK.now += gen.r.choice([0, 1, 2])
+            req = gen.request(0.4)
+            x = gen.r.random()
+            if x < 0.12:
+                req["ts"] = gen.r.choice([-100, -61, 50, 3600])
+            elif x < 0.2:
+                req["async"] = True
+            elif x < 0.28:
+                req["opt"] = "Undo"
+            elif x < 0.36 and len(req["items"]) > 1:
+                req["items"][-1]["bid"] = ""
+            res = rec.request(req)
+            gen.observe(res, drv.state())
+        rec.close()
+        tr = rec.trace()
+        tr["raw"] = rec.raw
+        return tr
+    finally:
+        drv.close()
+
+
+def over_connections(run, quick):
+    import multiprocessing
+    from .. import sessdrv as S
+    for u in ("alice", "bob"):
+        S.make_cert(1, "client", cn=u)
+    E.rsa_pair()
+    n, m = (32, 40) if quick else (200, 60)
+    with multiprocessing.Pool(common.NCPU) as pool:
+        out = pool.map(_conn_history, [("v%d" % i, common.SEED * 613 + i, m) for i in range(n)])
+    run.extra["connection_histories"] = {"histories": n, "requests_each": m}
+    return out
 
 
 def wire_gating(run):
